@@ -4744,9 +4744,12 @@ agent_recv_message_unlocked (
 
           if (component->rfc4571_frame_size == 0 &&
               headroom >= sizeof (guint16)) {
-            component->rfc4571_frame_size = sizeof (guint16) + ntohs (
-                *((guint16 *) (component->rfc4571_buffer +
-                    component->rfc4571_frame_offset)));
+            /* The length field may sit at an odd address: read it bytewise. */
+            component->rfc4571_frame_size = sizeof (guint16) +
+                ((guint) component->rfc4571_buffer[
+                    component->rfc4571_frame_offset] << 8 |
+                 component->rfc4571_buffer[
+                    component->rfc4571_frame_offset + 1]);
           }
         }
 
@@ -4974,9 +4977,10 @@ agent_consume_next_rfc4571_chunk (NiceAgent *agent, NiceComponent *component,
 
     headroom = nice_component_compute_rfc4571_headroom (component);
     if (headroom >= sizeof (guint16)) {
-      component->rfc4571_frame_size = sizeof (guint16) + ntohs (
-          *((guint16 *) (component->rfc4571_buffer +
-              component->rfc4571_frame_offset)));
+      component->rfc4571_frame_size = sizeof (guint16) +
+          ((guint) component->rfc4571_buffer[
+              component->rfc4571_frame_offset] << 8 |
+           component->rfc4571_buffer[component->rfc4571_frame_offset + 1]);
       have_whole_next_frame = headroom >= component->rfc4571_frame_size;
     } else {
       have_whole_next_frame = FALSE;
